@@ -3,6 +3,7 @@ import ShredModel.Model.Plan
 import ShredModel.Model.Nested
 import ShredModel.Model.PTask
 import ShredModel.Model.Effect
+import ShredModel.Model.Lifecycle
 import ShredModel.Drv.Util
 /-! Line-protocol front end of the builder / task model (plan and trace engines). -/
 namespace Shred.Drv.Plan
@@ -13,6 +14,8 @@ structure Frame where
   b : DispatcherBuilder := {}
   bodies : List (SysTag × Body) := []
   threads : List (SysTag × Threads) := []
+  lsetup : List (SysTag × Nat × List LEv) := []
+  ldispose : List (SysTag × Nat × List LEv) := []
 
 /-- driver state: stack of builders (head = innermost batch being filled), the declarations of
 all plain systems by tag, and the residual task / expected threads of the trace being validated -/
@@ -72,15 +75,18 @@ def step (st : St) (ws : List String) : St × String :=
                  decls := (tag, ⟨parseRes r, parseRes w, 3⟩) :: st.decls }, "ok")
     | _, _ => (st, "bad-op")
   | ["batch-begin"] => ({ st with frames := ({} : Frame) :: st.frames }, "ok")
-  | ["batch-end", tag, name, deps, _ctl, r, w, t, n] =>
+  | ["batch-end", tag, name, deps, ctl, r, w, t, n] =>
     match st.frames, tag.toNat?, t.toNat?, n.toNat? with
     | inner :: f :: rest, some tag, some t, some n =>
+      let kind := ctl.toNat?.getD 0
       let (b', p) := f.b.addBatch tag (unhex name) ((parseList deps).map unhex) ⟨parseRes r, parseRes w, t⟩ inner.b
       let sb := inner.b.stagesBuilder
       let f' : Frame := match p with
         | none => { b := b',
                     bodies := (tag, batchBody st.par sb.stages inner.b.threadLocal inner.bodies n) :: f.bodies,
-                    threads := (tag, batchThreads st.par sb.stages inner.b.threadLocal inner.threads n) :: f.threads }
+                    threads := (tag, batchThreads st.par sb.stages inner.b.threadLocal inner.threads n) :: f.threads,
+                    lsetup := (tag, kind, setupOrder sb.stages inner.b.threadLocal inner.lsetup) :: f.lsetup,
+                    ldispose := (tag, kind, disposeOrder sb.stages inner.b.threadLocal inner.ldispose) :: f.ldispose }
         | some _ => { f with b := b' }
       ({ st with frames := f' :: rest }, match p with | none => "placed" | some p => showPanic p)
     | _, _, _, _ => (st, "bad-op")
@@ -129,6 +135,31 @@ def step (st : St) (ws : List String) : St × String :=
         if t.finalOk false then (if t.hasPanic then "accept panicked" else "accept ok")
         else "reject incomplete")
     | none => (st, "bad-op")
+  | ["lifecycle", what] =>
+    match st.frames with
+    | f :: _ =>
+      let sb := f.b.stagesBuilder
+      let evs := if what == "setup" then setupOrder sb.stages f.b.threadLocal f.lsetup
+                 else disposeOrder sb.stages f.b.threadLocal f.ldispose
+      let sh : LEv → String
+        | .S t => s!"S{t}"
+        | .C t k => s!"C{t}:{k}"
+        | .X t => s!"X{t}"
+      (st, if evs.isEmpty then "-" else " ".intercalate (evs.map sh))
+    | [] => (st, "bad-op")
+  | ["setup-world", present] =>
+    match st.frames with
+    | f :: _ =>
+      let sb := f.b.stagesBuilder
+      let w : LWorld := (parseList present).filterMap fun x =>
+        match x.splitOn "=" with
+        | [k, v] => match parseRes k, v.toNat? with
+          | [r], some v => some (r, v)
+          | _, _ => none
+        | _ => none
+      let w' := setupWorld (setupOrder sb.stages f.b.threadLocal f.lsetup) w
+      (st, if w'.isEmpty then "-" else ",".intercalate (w'.map fun p => s!"{p.1.ty}.{p.1.dyn}={p.2}"))
+    | [] => (st, "bad-op")
   | ["effects", k] =>
     match st.frames, k.toNat? with
     | f :: _, some k =>
